@@ -88,7 +88,7 @@ fn one_case(seed: u64, i: u64) -> CaseOut {
         });
     }
     let lines = script_lines(&cmds, seed ^ i);
-    let sep = if rng.bool() { ";" } else { "\n" };
+    let sep = *rng.pick(&[";", "\n", "mix"]);
     let checked = run_and_verify(&mut out, "C16", i, &text, stack, &cmds, &lines, sep, &built.input, false, &img.breaks);
     let (Some(sess), Some(stats)) = (&checked.sess, &checked.stats) else {
         return out;
